@@ -188,4 +188,143 @@ theorem wfList_comparable : ∀ (lo hi : Nat) (ks : List ONode), wfList lo hi ks
     · exact wfList_comparable k.e hi ks h4 a ha b hb hab
 end
 
+/-! ## order-free geometry -/
+
+theorem disjointFrom_iff (k : ONode) : ∀ ks : List ONode,
+    disjointFrom k ks = true ↔ ∀ x ∈ ks, k.e ≤ x.s ∨ x.e ≤ k.s
+  | [] => by simp [disjointFrom]
+  | x :: xs => by
+    simp only [disjointFrom, Bool.and_eq_true, Bool.or_eq_true, decide_eq_true_eq, disjointFrom_iff k xs,
+      List.forall_mem_cons]
+
+/-- `geoList` says: every child lies inside `[lo, hi]` and has the geometry itself, and the
+children are pairwise disjoint -/
+theorem geoList_iff (lo hi : Nat) : ∀ ks : List ONode,
+    geoList lo hi ks = true ↔
+      (∀ k ∈ ks, lo ≤ k.s ∧ k.e ≤ hi ∧ geo k = true) ∧ ks.Pairwise (fun a b => a.e ≤ b.s ∨ b.e ≤ a.s)
+  | [] => by simp [geoList]
+  | k :: ks => by
+    simp only [geoList, Bool.and_eq_true, decide_eq_true_eq, geoList_iff lo hi ks, disjointFrom_iff,
+      List.pairwise_cons, List.forall_mem_cons]
+    constructor
+    · rintro ⟨⟨⟨⟨h1, h2⟩, h3⟩, h4⟩, h5, h6⟩
+      exact ⟨⟨⟨h1, h2, h3⟩, h5⟩, h4, h6⟩
+    · rintro ⟨⟨⟨h1, h2, h3⟩, h5⟩, h4, h6⟩
+      exact ⟨⟨⟨⟨h1, h2⟩, h3⟩, h4⟩, h5, h6⟩
+
+theorem geoList_mono {lo lo' hi : Nat} {ks : List ONode} (hl : lo' ≤ lo) (h : geoList lo hi ks = true) :
+    geoList lo' hi ks = true := by
+  rw [geoList_iff] at h ⊢
+  exact ⟨fun k hk => ⟨Nat.le_trans hl (h.1 k hk).1, (h.1 k hk).2⟩, h.2⟩
+
+theorem mem_nodesList {x : ONode} : ∀ {ks : List ONode}, x ∈ nodesList ks → ∃ k ∈ ks, x ∈ nodes k
+  | [], h => by simp [nodesList] at h
+  | k :: ks, h => by
+    simp only [nodesList, List.mem_append] at h
+    rcases h with h | h
+    · exact ⟨k, List.mem_cons_self, h⟩
+    · obtain ⟨k', hk', hx⟩ := mem_nodesList h
+      exact ⟨k', List.mem_cons_of_mem _ hk', hx⟩
+
+theorem mem_nodesList_of {x k : ONode} : ∀ {ks : List ONode}, k ∈ ks → x ∈ nodes k → x ∈ nodesList ks
+  | [], h, _ => by cases h
+  | k' :: ks, h, hx => by
+    simp only [nodesList, List.mem_append]
+    rcases List.mem_cons.mp h with rfl | h
+    · exact Or.inl hx
+    · exact Or.inr (mem_nodesList_of h hx)
+
+mutual
+theorem geo_bounds : ∀ (n : ONode), geo n = true → ∀ x ∈ nodes n, n.s ≤ x.s ∧ x.e ≤ n.e ∧ x.s < x.e
+  | .mk id s e kids, h => by
+    simp only [geo, Bool.and_eq_true, decide_eq_true_eq] at h
+    intro x hx
+    simp only [nodes, List.mem_cons] at hx
+    rcases hx with rfl | hx
+    · simp only [ONode.s, ONode.e]; omega
+    · have := geoList_bounds s e kids h.2 x hx
+      simp only [ONode.s, ONode.e] at this ⊢; omega
+theorem geoList_bounds : ∀ (lo hi : Nat) (ks : List ONode), geoList lo hi ks = true →
+    ∀ x ∈ nodesList ks, lo ≤ x.s ∧ x.e ≤ hi ∧ x.s < x.e
+  | lo, hi, [], _ => by simp [nodesList]
+  | lo, hi, k :: ks, h => by
+    simp only [geoList, Bool.and_eq_true, decide_eq_true_eq] at h
+    obtain ⟨⟨⟨⟨h1, h2⟩, h3⟩, _⟩, h5⟩ := h
+    intro x hx
+    simp only [nodesList, List.mem_append] at hx
+    rcases hx with hx | hx
+    · have := geo_bounds k h3 x hx; omega
+    · exact geoList_bounds lo hi ks h5 x hx
+end
+
+mutual
+theorem geo_comparable : ∀ (n : ONode), geo n = true → ∀ a ∈ nodes n, ∀ b ∈ nodes n,
+    a.span = b.span → a ∈ nodes b ∨ b ∈ nodes a
+  | .mk id s e kids, h => by
+    have h' := h
+    simp only [geo, Bool.and_eq_true, decide_eq_true_eq] at h'
+    intro a ha b hb hab
+    simp only [nodes, List.mem_cons] at ha hb
+    rcases ha with rfl | ha
+    · right
+      simp only [nodes, List.mem_cons]
+      rcases hb with rfl | hb
+      · exact Or.inl rfl
+      · exact Or.inr hb
+    · rcases hb with rfl | hb
+      · left; simp only [nodes, List.mem_cons]; exact Or.inr ha
+      · exact geoList_comparable s e kids h'.2 a ha b hb hab
+theorem geoList_comparable : ∀ (lo hi : Nat) (ks : List ONode), geoList lo hi ks = true →
+    ∀ a ∈ nodesList ks, ∀ b ∈ nodesList ks, a.span = b.span → a ∈ nodes b ∨ b ∈ nodes a
+  | lo, hi, [], _ => by simp [nodesList]
+  | lo, hi, k :: ks, h => by
+    have h' := h
+    simp only [geoList, Bool.and_eq_true, decide_eq_true_eq] at h'
+    obtain ⟨⟨⟨⟨_, _⟩, h3⟩, h4⟩, h5⟩ := h'
+    intro a ha b hb hab
+    simp only [nodesList, List.mem_append] at ha hb
+    have hsp : a.s = b.s ∧ a.e = b.e := by
+      unfold ONode.span at hab
+      exact ⟨congrArg Prod.fst hab, congrArg Prod.snd hab⟩
+    have hdis := (disjointFrom_iff k ks).mp h4
+    have hks := ((geoList_iff lo hi ks).mp h5).1
+    have cross : ∀ a ∈ nodes k, ∀ b ∈ nodesList ks, a.s = b.s → a.e = b.e → False := by
+      intro a ha b hb e1 e2
+      obtain ⟨k', hk', hbk⟩ := mem_nodesList hb
+      have ba := geo_bounds k h3 a ha
+      have bb := geo_bounds k' (hks k' hk').2.2 b hbk
+      rcases hdis k' hk' with d | d <;> omega
+    rcases ha with ha | ha <;> rcases hb with hb | hb
+    · exact geo_comparable k h3 a ha b hb hab
+    · exact (cross a ha b hb hsp.1 hsp.2).elim
+    · exact (cross b hb a ha hsp.1.symm hsp.2.symm).elim
+    · exact geoList_comparable lo hi ks h5 a ha b hb hab
+end
+
+mutual
+theorem wf_geo : ∀ (n : ONode), wf n = true → geo n = true
+  | .mk id s e kids, h => by
+    simp only [wf, Bool.and_eq_true, decide_eq_true_eq] at h
+    simp only [geo, Bool.and_eq_true, decide_eq_true_eq]
+    exact ⟨h.1, (wfList_geo s e kids h.2).1⟩
+theorem wfList_geo : ∀ (lo hi : Nat) (ks : List ONode), wfList lo hi ks = true →
+    geoList lo hi ks = true ∧ ∀ x ∈ ks, lo ≤ x.s
+  | lo, hi, [], _ => by simp [geoList]
+  | lo, hi, k :: ks, h => by
+    simp only [wfList, Bool.and_eq_true, decide_eq_true_eq] at h
+    obtain ⟨⟨⟨h1, h2⟩, h3⟩, h4⟩ := h
+    have ih := wfList_geo k.e hi ks h4
+    have hk := wf_geo k h3
+    have hne : k.s < k.e := (geo_bounds k hk k (self_mem_nodes k)).2.2
+    refine ⟨?_, ?_⟩
+    · simp only [geoList, Bool.and_eq_true, decide_eq_true_eq]
+      refine ⟨⟨⟨⟨h1, h2⟩, hk⟩, ?_⟩, ?_⟩
+      · exact (disjointFrom_iff k ks).mpr (fun x hx => Or.inl (ih.2 x hx))
+      · exact geoList_mono (by omega) ih.1
+    · intro x hx
+      rcases List.mem_cons.mp hx with rfl | hx
+      · exact h1
+      · have := ih.2 x hx; omega
+end
+
 end PosDict
